@@ -2,6 +2,7 @@ package doublesign
 
 import (
 	"errors"
+	"math"
 	"time"
 )
 
@@ -29,6 +30,18 @@ func (s *SyncStatus) Since(t time.Time) time.Duration {
 	return s.Now.Sub(t)
 }
 
+// waitTime returns how long to wait until t is at least threshold in the past.
+// The result is capped at the largest duration: Since() saturates for a far-future t,
+// and the plain difference would wrap around.
+func (s *SyncStatus) waitTime(t time.Time, threshold time.Duration) time.Duration {
+	since := s.Since(t)
+	wait := threshold - since
+	if since < 0 && wait < threshold {
+		return math.MaxInt64
+	}
+	return wait
+}
+
 type maxWaitError struct {
 	wait    time.Duration
 	waitErr error
@@ -53,19 +66,19 @@ func SyncedToEmit(s SyncStatus, threshold time.Duration) (time.Duration, error) 
 	}
 	var max maxWaitError
 	if s.Since(s.ExternalSelfEventDetected) < threshold {
-		max.apply(threshold-s.Since(s.ExternalSelfEventDetected), ErrSelfEventsOngoing)
+		max.apply(s.waitTime(s.ExternalSelfEventDetected, threshold), ErrSelfEventsOngoing)
 	}
 	if s.Since(s.ExternalSelfEventCreated) < threshold {
-		max.apply(threshold-s.Since(s.ExternalSelfEventCreated), ErrSelfEventsOngoing)
+		max.apply(s.waitTime(s.ExternalSelfEventCreated, threshold), ErrSelfEventsOngoing)
 	}
 	if s.Since(s.BecameValidator) < threshold {
-		max.apply(threshold-s.Since(s.BecameValidator), ErrJustBecameValidator)
+		max.apply(s.waitTime(s.BecameValidator, threshold), ErrJustBecameValidator)
 	}
 	if s.Since(s.LastConnected) < threshold {
-		max.apply(threshold-s.Since(s.LastConnected), ErrJustConnected)
+		max.apply(s.waitTime(s.LastConnected, threshold), ErrJustConnected)
 	}
 	if s.Since(s.P2PSynced) < threshold {
-		max.apply(threshold-s.Since(s.P2PSynced), ErrJustP2PSynced)
+		max.apply(s.waitTime(s.P2PSynced, threshold), ErrJustP2PSynced)
 	}
 
 	return max.wait, max.waitErr
